@@ -172,6 +172,35 @@ pub fn capacity_twin_script(rng: &mut Rng) -> std::collections::VecDeque<String>
     out
 }
 
+/// Scripted construction (needs the `sequential` plan) for HashTable: `w + 1` elements with the same home
+/// (the last one is displaced into the next probe group), then all but the displaced one are removed, so the
+/// LAST remaining element sits outside its home group behind tombstones; it is removed through `find_entry`
+/// and re-inserted through the returned `VacantEntry` (same bucket), looked up, removed by `retain`-free means
+/// and looked up again.
+pub fn last_displaced_script(rng: &mut Rng) -> std::collections::VecDeque<String> {
+    let w = hashbrown::verif::GROUP_WIDTH;
+    let n = 4 * w;
+    let mask = n - 1;
+    let cap = hashbrown::verif::bucket_mask_to_capacity(mask);
+    let r = rng.below(4) as usize * w;
+    let key = |j: usize| (r & mask) + n * j;
+    let mut out = std::collections::VecDeque::new();
+    out.push_back(format!("a with_capacity {}", cap));
+    for j in 0..=w {
+        out.push_back(format!("TINS {}", key(j)));
+    }
+    for j in 0..w {
+        out.push_back(format!("a remove {}", key(j)));
+    }
+    out.push_back(format!("TREINS {}", key(w)));
+    out.push_back(format!("a find {}", key(w)));
+    out.push_back(format!("a iter_hash {}", key(w)));
+    out.push_back(format!("TINS {}", key(w + 1)));
+    out.push_back(format!("a find {}", key(w)));
+    out.push_back(format!("a find {}", key(w + 1)));
+    out
+}
+
 /// Scripted construction (needs the `const0` plan: every key hashes to 0, so insertion order = probe
 /// order) of a 128-bucket table in which the in-place rehash meets an element whose ideal group is
 /// visited EARLIER by the triangular probe but lies LATER in linear order than the group it sits in:
@@ -335,6 +364,11 @@ impl Gen {
             if let Some(k) = op.strip_prefix("TINS ") {
                 let id = self.id();
                 return format!("a insert_unique {} {} {}", k, id, 100 + self.rng.below(50));
+            }
+            if let Some(k) = op.strip_prefix("TREINS ") {
+                // find_entry(k) -> OccupiedEntry::remove -> VacantEntry::insert of a fresh element with key k
+                let id = self.id();
+                return format!("a find_entry_remove_reinsert {} {} {}", k, id, 100 + self.rng.below(50));
             }
             if let Some(rest) = op.strip_prefix("SINS ") {
                 // plain insert into the named side
